@@ -227,38 +227,50 @@ func (in *Interp) selfPoint(recv Value) Value {
 	return IfaceV{T: typesPtr(t), V: recv}
 }
 
-// opaque encodings
+// opaque encodings: an injective function of the value, realised as constant bytes derived from the canonical key
+// (distinct values get distinct encodings, equal values equal ones; no solver variables involved)
 func (in *Interp) opaqueBytes(prefix, key string, n int, val Value) []*Term {
-	name := prefix + shortKey(key)
-	in.fs().registry[name] = val
-	out := make([]*Term, n)
-	for i := range out {
-		out[i] = Var(fmt.Sprintf("%s[%d]", name, i), BV(8))
+	out := make([]*Term, 0, n)
+	var raw []byte
+	for ctr := 0; len(raw) < n; ctr++ {
+		d := sha256.Sum256([]byte(fmt.Sprintf("%s|%d|%s", prefix, ctr, key)))
+		raw = append(raw, d[:]...)
 	}
+	raw = raw[:n]
+	if raw[0] == 0 {
+		raw[0] = 1
+	}
+	for _, b := range raw {
+		out = append(out, BVConst64(uint64(b), 8))
+	}
+	in.fs().registry[prefix+":"+fmt.Sprintf("%x", raw)] = val
 	return out
 }
 
-func (in *Interp) lookupOpaque(bs []*Term) (Value, bool) {
-	if len(bs) == 0 || bs[0].Op != "var" {
-		return nil, false
-	}
-	n := bs[0].Name
-	i := strings.LastIndex(n, "[")
-	if i < 0 {
-		return nil, false
-	}
-	base := n[:i]
-	v, ok := in.fs().registry[base]
+func (in *Interp) lookupOpaqueKind(prefix string, bs []*Term) (Value, bool) {
+	raw, ok := allConstBytes(bs)
 	if !ok {
 		return nil, false
 	}
-	for j, b := range bs {
-		if b.Op != "var" || b.Name != fmt.Sprintf("%s[%d]", base, j) {
-			return nil, false
+	v, ok := in.fs().registry[prefix+":"+fmt.Sprintf("%x", raw)]
+	return v, ok
+}
+
+func (in *Interp) lookupOpaque(bs []*Term) (Value, bool) {
+	for _, p := range []string{"sc", "pt"} {
+		if v, ok := in.lookupOpaqueKind(p, bs); ok && v != nil {
+			return v, true
 		}
 	}
-	return v, true
+	return nil, false
 }
+
+type liftEntry struct {
+	P *FPoint
+	K string
+}
+
+func (*liftEntry) ModelName() string { return "lift" }
 
 func (in *Interp) freshIndet(prefix string) *FScal {
 	f := in.fs()
@@ -403,13 +415,23 @@ func init() {
 		if flip {
 			canon = fsNeg(s)
 		}
-		bs := in.opaqueBytes("xb", k, 32, nil)
-		in.fs().registry["lift:xb"+shortKey(k)] = &FPoint{S: canon}
-		return in.byteSlice(bs)
+		return in.byteSlice(in.opaqueBytes("xb", k, 32, &liftEntry{P: &FPoint{S: canon}, K: shortKey(k)}))
 	})
+	// compressed encoding: parity byte (2 even / 3 odd) followed by the 32 x-bytes (opaque, shared by P and -P)
 	P("MarshalBinary", func(in *Interp, fr *Frame, a []Value) Value {
 		p := in.fpoint(a[0])
-		return tup(in.byteSlice(in.opaqueBytes("pt", p.S.key(), 33, p)), nilErr)
+		k, flip := pkey(p.S)
+		canon := p.S
+		if flip {
+			canon = fsNeg(p.S)
+		}
+		xb := in.opaqueBytes("xb", k, 32, &liftEntry{P: &FPoint{S: canon}, K: shortKey(k)})
+		even := Var("evenY("+shortKey(k)+")", BoolSort) // parity of the canonical representative
+		if flip {
+			even = Not(even)
+		}
+		out := append([]*Term{Ite(even, BVConst64(2, 8), BVConst64(3, 8))}, xb...)
+		return tup(in.byteSlice(out), nilErr)
 	})
 	P("UnmarshalBinary", func(in *Interp, fr *Frame, a []Value) Value {
 		in.fpoint(a[0])
@@ -417,13 +439,22 @@ func init() {
 		if len(bs) != 33 {
 			return in.mkError("invalid length for secp256k1Point", nil)
 		}
-		if v, ok := in.lookupOpaque(bs); ok {
-			if p, ok := v.(*FPoint); ok {
-				in.store(a[0].(PtrV), p)
-				return nilErr
+		if v, ok := in.lookupOpaqueKind("xb", bs[1:]); ok {
+			le := v.(*liftEntry)
+			evenCanon := Var("evenY("+le.K+")", BoolSort)
+			is2, is3 := Eq(bs[0], BVConst64(2, 8)), Eq(bs[0], BVConst64(3, 8))
+			if !in.branch(Or(is2, is3)) {
+				return in.mkError("invalid point prefix", nil)
 			}
+			// the encoded point is the representative whose parity matches the prefix
+			if in.branch(Eq(is2, evenCanon)) {
+				in.store(a[0].(PtrV), le.P)
+			} else {
+				in.store(a[0].(PtrV), &FPoint{S: fsNeg(le.P.S)})
+			}
+			return nilErr
 		}
-		in.store(a[0].(PtrV), &FPoint{S: fsVar(fmt.Sprintf("ptbytes%d", bs[0].id))})
+		in.store(a[0].(PtrV), &FPoint{S: fsVar(fmt.Sprintf("ptbytes%d", bs[1].id))})
 		return nilErr
 	})
 	T["("+curvePkg+"Secp256k1).NewBasePoint"] = func(in *Interp, fr *Frame, a []Value) Value {
@@ -435,22 +466,16 @@ func init() {
 			in.fail("LiftX: unexpected length in field mode")
 		}
 		// x-only bytes produced by XBytes of a known point: lift_x returns the representative with even Y
-		if bs[0].Op == "var" {
-			n := bs[0].Name
-			if i := strings.LastIndex(n, "["); i > 0 {
-				if v, ok := in.fs().registry["lift:"+n[:i]]; ok {
-					p := v.(*FPoint)
-					k := strings.TrimPrefix(n[:i], "xb")
-					if !in.branch(Var("evenY("+k+")", BoolSort)) {
-						p = &FPoint{S: fsNeg(p.S)}
-					}
-					t := in.namedType(repoMod+"/pkg/math/curve", "Secp256k1Point")
-					return tup(PtrV{C: in.newCell(t, p)}, nilErr)
-				}
+		if v, ok := in.lookupOpaqueKind("xb", bs); ok {
+			le := v.(*liftEntry)
+			p := le.P
+			if !in.branch(Var("evenY("+le.K+")", BoolSort)) {
+				p = &FPoint{S: fsNeg(p.S)}
 			}
+			t := in.namedType(repoMod+"/pkg/math/curve", "Secp256k1Point")
+			return tup(PtrV{C: in.newCell(t, p)}, nilErr)
 		}
-		in.fail("LiftX on unknown bytes in field mode")
-		return nil
+		return tup(PtrV{}, in.mkError("x coordinate not on curve (unknown bytes in field mode)", nil))
 	}
 	// randomness and hash-to-scalar
 	T[repoMod+"/pkg/math/sample.Scalar"] = func(in *Interp, fr *Frame, a []Value) Value {
